@@ -1,5 +1,5 @@
 (** * C11 -- measure, if, reset and barrier *)
-From QV Require Import Interp Sym Reg ScalarR RegP C05T C07T2 C11T C11T2.
+From QV Require Import Interp Sym Reg ScalarR RegP C05T C07T2 C11T C11T2 C17T2 C11T3.
 
 Theorem C11_blocks : C11_blocks_stmt.
 Proof. exact C11_blocks_proof. Qed.
@@ -20,3 +20,11 @@ Print Assumptions C11_reset.
 Theorem C11_reset_born : C11_reset_born_stmt.
 Proof. exact C11_reset_born_proof. Qed.
 Print Assumptions C11_reset_born.
+
+Theorem C11_program : C11_program_stmt.
+Proof. exact C11_program_proof. Qed.
+Print Assumptions C11_program.
+
+Theorem C11_session : C11_session_stmt.
+Proof. exact C11_session_proof. Qed.
+Print Assumptions C11_session.
